@@ -80,6 +80,11 @@ def ppnSize : PPN → Option Nat
   | none => some 1
   | some pts => ptComputeSize pts
 
+/-- `Option<PackedPointNumbers>::write_into`: nothing for `None` -/
+def optPpnBytes : Option PPN → Option (List Nat)
+  | none => some []
+  | some p => ppnBytes p
+
 /-- a `GlyphDelta { x, y, required }` -/
 abbrev GDelta := Int × Int × Bool
 
@@ -169,7 +174,7 @@ def buildTuple (sharedIdx : Option Nat) (sharedPts : Option PPN) (t : TupleIn) :
   | none => none
   | some (xs, ys) =>
     let priv : Option PPN := if hasPrivate then some t.best else none
-    match tupleDataSize priv xs ys, (match priv with | none => some [] | some p => ppnBytes p) with
+    match tupleDataSize priv xs ys, optPpnBytes priv with
     | some size, some pb =>
       some ({ dataSize := size
               tupleIndex := tupleIndexBits sharedIdx t.inter.isSome hasPrivate
@@ -214,7 +219,7 @@ and per-tuple data:
 a header size panic. -/
 def serializeGlyph (sharedPts : Option PPN) (built : List (Header × List Nat)) : Option (List Nat) :=
   if built.length > 4095 then none else
-  match built.mapM (fun b => b.1.size), (match sharedPts with | none => some [] | some p => ppnBytes p) with
+  match built.mapM (fun b => b.1.size), optPpnBytes sharedPts with
   | some sizes, some sp =>
     let off := sizes.sum + 4
     if off > 65535 then none else
